@@ -4,6 +4,7 @@
 //! (`dns_parser::verif_hooks`, ...) so that they can read private fields; they are
 //! re-exported here.  This module itself holds the state shared by the seams.
 
+pub use crate::dns_cache::verif_hooks as cache;
 pub use crate::dns_parser::verif_hooks as parser;
 pub use crate::service_daemon::verif_hooks as daemon;
 pub use crate::service_info::verif_hooks as info;
